@@ -62,3 +62,77 @@ func ZZ_C15_exact_clear_from_arbitrary_statistics() {
 	zzvAssert("clear-empty", zzvAnd(inner.IsEmpty(), e.IsEmpty()))
 }
 func ZZ_C10_exact_clear_from_arbitrary_statistics() { ZZ_C15_exact_clear_from_arbitrary_statistics() }
+
+// C12: the approximate sum, in the band form of the accuracy contract (no float multiplication needed):
+// every absorbed value contributes a representative inside its accuracy band, so for same-signed data
+// the sum lies between the sums of the band ends (float64 addition is monotone). Values below the
+// smallest indexable magnitude count as 0.
+func zzC12SumBand(n int, negative bool) {
+	zzvBound("GetSum", "n same-signed trackable values (n <= 2) with unit weights on real sparse stores; mapping through the contract with an abstract accuracy band")
+	zzvMapOrders(2)
+	zzvExactFloatsOnly()
+	zzvSolverSeconds(120)
+	m := zzContract()
+	s := NewDDSketch(m, store.NewSparseStore(), store.NewSparseStore())
+	lo, hi := 0.0, 0.0
+	for i := 0; i < n; i++ {
+		v := zzTrackable(m, "v")
+		zzvAssume(v >= 0)
+		e := zzEffective(m, v)
+		if negative {
+			zzvAssert("accepted", s.Add(-v) == nil)
+		} else {
+			zzvAssert("accepted", s.Add(v) == nil)
+		}
+		if zzvChoose("indexable", 2) == 1 {
+			zzvAssume(e > 0)
+			zzBand(e)
+			lo += zzLo(e)
+			hi += zzHi(e)
+		} else {
+			zzvAssume(e == 0)
+		}
+	}
+	zzvCover("built")
+	got := s.GetSum()
+	if negative {
+		got = -got
+	}
+	zzvAssert("sum-between-the-sums-of-the-band-ends", zzvAnd(lo <= got, got <= hi))
+}
+func ZZ_C12_sum_band_positive_n1() { zzC12SumBand(1, false) }
+func ZZ_C12_sum_band_negative_n1() { zzC12SumBand(1, true) }
+func ZZ_C12_sum_band_positive_n2() { zzC12SumBand(2, false) }
+func ZZ_C12_sum_band_negative_n2() { zzC12SumBand(2, true) }
+
+// C08: every cut of a CONTIGUOUS-COUNTS block with several bins (dense source), weights whose varfloat
+// takes one byte (1,2,3,5,7) or nine bytes (0.3, 0.75), into every consumer kind
+func ZZ_C08_cuts_contiguous_counts() {
+	zzvBound("contiguous-counts block", "dense source with 5 consecutive bins at base index from {-3, 0, 17}, weights from three grids (one-byte and nine-byte varfloats), every cut position, sparse / dense / paginated / collapsing consumers; expected outcome from the reference parser")
+	m := zzRealMapping(0)
+	src := NewDDSketch(m, store.NewDenseStore(), store.NewDenseStore())
+	base := []int{-3, 0, 17}[zzvChoose("base", 3)]
+	ws := [][]float64{{1, 2, 3, 5, 7}, {1, 0.3, 2, 1, 1}, {3, 1, 1, 1, 0.75}}[zzvChoose("weights", 3)]
+	for k, w := range ws {
+		src.positiveValueStore.AddWithCount(base+k, w)
+	}
+	b := []byte{}
+	src.Encode(&b, false)
+	zzvCover("encoded")
+	zzvUnwind(100000)
+	dstKind := zzvChoose("dstKind", 4)
+	for cut := 0; cut <= len(b); cut++ {
+		prefix := append([]byte{}, b[:cut]...)
+		ref, ok := zzRefDecode(prefix)
+		dst, err := DecodeDDSketch(prefix, zzProvider(dstKind), nil)
+		if !ok {
+			zzvAssert("cut-inside-a-block-is-an-error", err != nil)
+			continue
+		}
+		if !ref.hasMapping {
+			zzvAssert("cut-before-mapping-block-reports-missing-mapping", err != nil)
+			continue
+		}
+		zzvAssert("boundary-cut-holds-exactly-the-complete-blocks", err == nil && dst.positiveValueStore.TotalCount() == zzRefTotal(ref.pos))
+	}
+}
